@@ -463,7 +463,14 @@ def jaxtyped(fn=_sentinel, *, typechecker=_sentinel):
                 # Actually call the function.
                 out = fn(*args, **kwargs)
 
-                if full_signature.return_annotation is not inspect.Signature.empty:
+                if (
+                    full_signature.return_annotation is not inspect.Signature.empty
+                    and not inspect.iscoroutinefunction(fn)
+                ):
+                    # (For a coroutine function `out` is the not-yet-awaited coroutine
+                    # object, whereas the return annotation describes the awaited
+                    # result: there is nothing that can be checked at this point.)
+                    #
                     # Now type-check the return value. We need to include the
                     # parameters in the type-checking here in case there are any
                     # type variables shared across the parameters and return.
